@@ -38,7 +38,7 @@ def compact_encode_field_operator(fieldop: FieldOperator):
             and term.opdesc[0].otype == IFOType.FERMI_CREATE
             and term.opdesc[1].otype == IFOType.FERMI_ANNIHIL):
 
-            if not np.issubdtype(term.coeffs.dtype, float):
+            if not np.isrealobj(term.coeffs):
                 raise ValueError("only real coefficient matrices for on-site and kinetic hopping term supported")
             if not np.allclose(term.coeffs, term.coeffs.T):
                 raise ValueError("only symmetric coefficient matrices for on-site and kinetic hopping term supported")
